@@ -128,6 +128,14 @@ class Ref:
                     self.bad("authentic fresh downlink was not accepted", response=out[:80], counter=accept_n)
                 elif resp == "DownlinkReceived" and ("(%d)" % accept_n) not in out:
                     self.bad("downlink accepted with a counter other than the unique fresh one", response=out[:80], counter=accept_n)
+                # the payload handed to the application: FRMPayload decrypted under the application key with that same counter
+                fl = frame[5] & 15
+                body = frame[8 + fl:-4]
+                if resp == "DownlinkReceived" and body and body[0] != 0 and " dl=" in out:
+                    want = "%d:%s" % (body[0], core.hexs(lw._crypt(self.app, 1, int.from_bytes(frame[1:5], "little"), accept_n, body[1:])))
+                    got = out.split(" dl=")[1].split()[0]
+                    if got != want and got != "none":
+                        self.bad("downlink payload was not decrypted with the accepted 32-bit counter", delivered=got, expected=want, counter=accept_n)
                 self.last_down = accept_n
                 if frame[0] >> 5 == 5:
                     self.owed_ack = True
